@@ -121,10 +121,13 @@ def body(c):
                 refused.append({"id": 0, "family": fname + "@rec%s" % ("default" if lim < 0 else lim), "n": n,
                                 "cfg": {"recursive": lim, "directives": 1000}, "doc": fam_docs[(fname, n)], "above": n > eff})
     for fname in ("dirfirst", "dirlast"):
-        for n in ((3, 7, 11) if c.quick else range(1, 12)):
+        # n <= 11: everything stays below the bound.  n >= 12: check_recursive_depth (which runs first and passes) is above the bound
+        # -- the known DevNoMemo -- but check_max_directives still has to stop at the offending field: its counter is held to the
+        # as-coded work, so a directive walker that keeps walking is not covered by the excuse
+        for n in ((3, 7, 11, 12, 14) if c.quick else range(1, 16)):
             for dl in (1, 2):
                 refused.append({"id": 0, "family": fname + "@dir%d" % dl, "n": n, "cfg": {"recursive": 64, "directives": dl},
-                                "doc": fam_docs[(fname, n)], "above": dl == 1})
+                                "doc": fam_docs[(fname, n)], "above": dl == 1 and n <= 11})
     ts = json.load(open(SCHEMA))
     rng = random.Random(c.seed)
     dg = gqlgen.DocGen(ts, random.Random(c.seed + 5), max_depth=4, max_items=4, p_dir=0.0, p_frag=0.35, p_alias=0.2)
